@@ -57,7 +57,7 @@ func (d Decryptor) Decrypt(ct *Ciphertext, pt *Plaintext) {
 	pt.Resize(0, level)
 	pt.Value = pt.Element.Value[0]
 
-	*pt.MetaData = *ct.MetaData
+	*pt.MetaData = *ct.MetaData.CopyNew()
 
 	if ct.IsNTT {
 		pt.Value.CopyLvl(level, ct.Value[ct.Degree()])
